@@ -51,10 +51,12 @@ func (c split) Recv() ([]byte, error) {
 			continue // incomplete line
 		}
 		line := buf.Bytes()
-		if n := len(line) - 1; n >= 0 {
-			return line[:n], err
+		if err == nil {
+			return line[:len(line)-1], nil // trim the delimiter
+		} else if len(line) == 0 {
+			return nil, err
 		}
-		return nil, err
+		return line, err // unterminated final record; nothing to trim
 	}
 }
 
